@@ -13,6 +13,8 @@ import traceback
 from . import build, core, known
 
 VERIF = "/verif"
+# when a scratch tree is checked (VF_REPO/VF_BUILD, see build.py) evidence and new replay files go next to that build
+OUT = os.environ.get("VF_BUILD") and os.path.dirname(os.environ["VF_BUILD"].rstrip("/")) or VERIF
 ALL_IDS = ["C%02d" % i for i in range(1, 51)]
 
 
@@ -55,7 +57,7 @@ def safe_check(prop, case):
 
 
 def write_replay(pid, case, violations, extra=None):
-    d = os.path.join(VERIF, "replays", pid)
+    d = os.path.join(OUT, "replays", pid)
     os.makedirs(d, exist_ok=True)
     path = os.path.join(d, core.case_hash(case)[:16] + ".json")
     if not os.path.exists(path):
@@ -217,8 +219,8 @@ def run_check(pid, tier, seed_, n_override=None, workers=None, replay=None, no_s
         cov["worker_errors"] = [e[-1500:] for e in errors][:3]
     ev = dict(property_id=pid, tier=tier, seed=seed_, level=prop.level, coverage=cov,
               assumptions=list(prop.assumptions), wall_s=round(time.time() - t0, 2), violations=len(viol_lines))
-    os.makedirs(os.path.join(VERIF, "evidence"), exist_ok=True)
-    evp = os.path.join(VERIF, "evidence", pid + ".json")
+    os.makedirs(os.path.join(OUT, "evidence"), exist_ok=True)
+    evp = os.path.join(OUT, "evidence", pid + ".json")
     with open(evp + ".tmp", "w") as f:
         json.dump(ev, f, indent=1, sort_keys=True)
     os.replace(evp + ".tmp", evp)
